@@ -1273,6 +1273,8 @@ class ContactHandler(Messenger, dbus.service.Object):
         self._rx_map = {}
         # Set after the peer SESS_TERM is received
         self._term_recv = False
+        # Set when the contact is closed and only waits for its received bundles to be taken
+        self._bus_release = False
 
         # Bind to parent class
         self.set_on_state_change(self.session_state_changed)
@@ -1474,10 +1476,17 @@ class ContactHandler(Messenger, dbus.service.Object):
     def close(self):
         ''' Close the TCP connection immediately. '''
         self._tx_abandon()
-        if tuple(self.locations):
-            self.remove_from_connection()
+        self._bus_release = True
+        self._bus_release_check()
 
         Messenger.close(self)
+
+    def _bus_release_check(self):
+        ''' Leave the bus once closed, but not while a received bundle,
+        which was announced as finished, has still to be popped.
+        '''
+        if self._bus_release and not self._rx_map and tuple(self.locations):
+            self.remove_from_connection()
 
     def _tx_abandon(self):
         ''' Report all transfers which have not finished as not sent,
@@ -1580,6 +1589,7 @@ class ContactHandler(Messenger, dbus.service.Object):
         bid = int(bid)
         item = self._rx_map.pop(bid)
         self._rx_bundles.remove(item)
+        self._bus_release_check()
         item.file.seek(0)
         return item.file.read()
 
@@ -1595,6 +1605,7 @@ class ContactHandler(Messenger, dbus.service.Object):
         # only a bundle which was written out is taken off the queue
         self._rx_map.pop(bid)
         self._rx_bundles.remove(item)
+        self._bus_release_check()
 
     def send_buffer_decreased(self, buf_use):
         if self._send_segment_size is None:
